@@ -132,13 +132,17 @@ class SimRunner(Runner):
             if s.outcome is None:
                 self._execute(s)
             kind, payload = s.outcome
+            s.outcome = None          # this runner must not keep results alive itself
             if kind == 'ok':
                 self.results_map[s.task] = payload
                 host.rec.ev('complete', s.node, 'ok')
-                yield (s.task, payload.meta)
+                item = (s.task, payload.meta)
             else:
                 host.rec.ev('complete', s.node, type(payload).__name__)
-                yield (s.task, payload)
+                item = (s.task, payload)
+            del payload
+            yield item
+            del item
 
     def cancel(self) -> None:
         self.host.rec.ev('cancel', [s.node for s in self.queue])
